@@ -376,7 +376,7 @@ def rule_predicates(fx, rep):
                 fr.storev(t['dest'], Lin.atom('b'))
                 return True
             if c.get('name') == 'is_zero' and c.get('trait') == 'CurveAffine':
-                fr.storev(t['dest'], ('bool', ('is_identity', t['span'])))
+                fr.storev(t['dest'], ('bool', ('is_identity',)))
                 return True
             return False
         import inline as INL
@@ -385,7 +385,8 @@ def rule_predicates(fx, rep):
         I3.sums = True
         I3.fork_inlined = True
         try:
-            selfv = Agg([Lin.atom('x'), Lin.atom('y'), exp.TOP])
+            # the infinity marker is the same predicate whether read through is_zero() or directly
+            selfv = Agg([Lin.atom('x'), Lin.atom('y'), ('bool', ('is_identity',))])
             res3 = I3.run(p3, [('byref', selfv)])
             want_rhs = Sum.of(Lin({'x': 3})).add(Sum.of(Lin.atom('b')))
             y2 = Lin({'y': 2})
